@@ -216,6 +216,41 @@ theorem overlong_extLen_rejected (chk : Nat → Bool) (nh el : UInt8) (rest : By
   unfold decExt
   rw [hb]
 
+/-! ### the SPAO option (`pkt_auth.go`): an E2E option of type 2 viewed as SPI / algorithm /
+timestamp-or-sequence-number / authenticator -/
+
+/-- params → option (`NewPacketAuthOption`/`Reset`) → params (`ParsePacketAuthOption` + views):
+the same values; the option is a legal serializer input (type 2, aligned 4n+2) -/
+theorem spao_option_views_decode_serialize (p : AuthParams) (hw : p.WF) :
+    ∃ o, encAuthOpt p = .ok o ∧ parseAuthOpt o = .ok p ∧ o.FixWF ∧
+      o.data.length = 12 + p.auth.length := parseAuthOpt_enc p hw
+
+/-- option → params → option: whatever option `ParsePacketAuthOption` accepts is reproduced from
+its views except for the reserved byte (index 5 of the option data), which comes out zero -/
+theorem spao_option_views_serialize_decode (o : Opt) (p : AuthParams) (hl : o.data.length < 256)
+    (h : parseAuthOpt o = .ok p) :
+    p.WF ∧ ∃ o', encAuthOpt p = .ok o' ∧ o'.typ = o.typ ∧ o'.data = clr 5 0 o.data ∧
+      o'.dataLen = o.data.length := encAuthOpt_parse o p hl h
+
+/-- options that are not authenticator options, or carry fewer than the 12 metadata bytes, are
+rejected (the views never index out of range) -/
+theorem spao_option_short_rejected (o : Opt) (h : o.data.length < 12) :
+    ∃ e, parseAuthOpt o = .error e := by
+  unfold parseAuthOpt
+  split
+  · exact ⟨_, rfl⟩
+  · split
+    · rename_i hd; rw [hd] at h; simp at h; omega
+    · exact ⟨_, rfl⟩
+
+/-- **Alignment invariant of the FixLengths serializer**: every option of the input list sits in
+the serialized extension header at an offset (from the start of the header) congruent to its
+request `y` modulo `x` -/
+theorem options_aligned (os : List Opt) (hw : ∀ o ∈ os, o.FixWF) (i : Nat) (hi : i < os.length) :
+    ∃ pre post, encOptsFix 2 os = pre ++ optBytes os[i] ++ post ∧
+      (os[i].alignX ≠ 0 → (2 + pre.length) % os[i].alignX = os[i].alignY) :=
+  encOptsFix_aligned os hw 2 i hi
+
 /-! ### SCION/UDP and SCMP headers -/
 
 theorem udp_decode_serialize (u : UDP) (pl : Bytes) (hw : u.WF) (hl : u.length = 8 + pl.length) :
